@@ -384,10 +384,11 @@ func runRec(c *Check, rule string, entries []*ssa.Function, only func(*ssa.Funct
 			in[f] = true
 			names = append(names, fnName(f))
 		}
+		// the key is the cycle's first member in name order, without the member
+		// count: a helper extracted from (or inlined into) a member must not
+		// re-key the obligation
+		sort.Strings(names)
 		key := names[0]
-		if len(comp) > 1 {
-			key = fmt.Sprintf("%s (+%d)", names[0], len(comp)-1)
-		}
 		pos := p.pos(comp[0].Pos())
 		// table row?
 		var row *guardRow
@@ -419,6 +420,12 @@ func runRec(c *Check, rule string, entries []*ssa.Function, only func(*ssa.Funct
 					}
 					bad = fmt.Sprintf("call %s → %s at %s: %s", fnName(e.From), fnName(e.To), sp, why)
 				}
+			}
+		}
+		if bad != "" {
+			if ok, why := autoGuard(comp, in, g, false); ok {
+				c.Okf(rule, key, pos, "recursive descent is guarded: %s", why)
+				continue
 			}
 		}
 		if bad == "" {
@@ -482,7 +489,12 @@ func checkGuardRow(c *Check, rule, key, pos string, comp []*ssa.Function, in map
 		}
 	}
 	if gf == nil {
-		c.Flagf(rule, key, pos, "guard function %s named in guards.json is no longer part of this recursive cycle: the cycle must be re-read", row.Func)
+		// the function was renamed or split: look for the guard by what it does
+		if ok, why := autoGuard(comp, in, g, row.Release); ok {
+			c.Okf(rule, key, pos, "recursive descent is guarded (guard found by role, the function named in guards.json no longer exists): %s", why)
+		} else {
+			c.Flagf(rule, key, pos, "guard function %s named in guards.json is no longer part of this recursive cycle and no function of the cycle guards all its recursive calls: %s", row.Func, why)
+		}
 		return
 	}
 	// intra-SCC calls made from gf
@@ -504,6 +516,17 @@ func checkGuardRow(c *Check, rule, key, pos string, comp []*ssa.Function, in map
 			ok2, why = counterGuarded(gf, call)
 		} else {
 			ok2, why = visitedGuarded(gf, call, row)
+			if !ok2 {
+				// the container may have been renamed: try every container the function inserts into
+				for _, cand := range candidateContainers(gf) {
+					r2 := *row
+					r2.Container = cand
+					if ok3, why3 := visitedGuarded(gf, call, &r2); ok3 {
+						ok2, why = true, why3
+						break
+					}
+				}
+			}
 		}
 		sub := fmt.Sprintf("%s|%s→%s", key, gf.Name(), e.To.Name())
 		if ok2 {
@@ -812,4 +835,141 @@ func blockReaches(from, to, avoid *ssa.BasicBlock) bool {
 		}
 	}
 	return false
+}
+
+// candidateContainers: names of the maps / sets a function inserts into.
+func candidateContainers(f *ssa.Function) []string {
+	seen := map[string]bool{}
+	var out []string
+	add := func(v ssa.Value) {
+		name := ""
+		if _, fld, _, ok := loadedField(v); ok {
+			name = fld
+		} else if _, fld, _, ok := fieldOfAddr(v); ok {
+			name = fld
+		} else {
+			switch x := unspill(v).(type) {
+			case *ssa.Parameter:
+				name = x.Name()
+			case *ssa.FreeVar:
+				name = x.Name()
+			case *ssa.UnOp:
+				if _, fld, _, ok := loadedField(x); ok {
+					name = fld
+				} else if al, ok := x.X.(*ssa.Alloc); ok {
+					name = al.Comment
+				}
+			}
+		}
+		if name != "" && !seen[name] {
+			seen[name] = true
+			out = append(out, name)
+		}
+	}
+	eachInstr(f, func(_ *ssa.BasicBlock, i ssa.Instruction) {
+		switch x := i.(type) {
+		case *ssa.MapUpdate:
+			add(x.Map)
+		case ssa.CallInstruction:
+			if o := calleeObj(x); o != nil && (o.Name() == "Insert" || o.Name() == "Add" || o.Name() == "Push") {
+				if ops := opsOf(x); len(ops) > 0 {
+					add(ops[0])
+				}
+			}
+		}
+	})
+	sort.Strings(out)
+	return out
+}
+
+// autoGuard: some function of the cycle guards every intra-cycle call it makes
+// with one visited container (membership test controlling the call, insertion
+// dominating it) or with a decreasing counter, and every cycle passes through
+// that function (the cycle without it is acyclic).
+func autoGuard(comp []*ssa.Function, in map[*ssa.Function]bool, g *repoGraph, release bool) (bool, string) {
+	why := "no function of the cycle tests and marks a visited container before each of its recursive calls"
+	for _, gf := range comp {
+		var calls []ssa.Instruction
+		for _, e := range g.succ[gf] {
+			if !in[e.To] || e.Site == nil {
+				continue
+			}
+			switch e.Site.(type) {
+			case ssa.CallInstruction, *ssa.MakeClosure:
+				calls = append(calls, e.Site)
+			}
+		}
+		if len(calls) == 0 {
+			continue
+		}
+		verified := ""
+		// counter
+		allCounter := true
+		for _, cl := range calls {
+			if ok, _ := counterGuarded(gf, cl); !ok {
+				allCounter = false
+			}
+		}
+		if allCounter {
+			verified = "decreasing counter in " + fnName(gf)
+		}
+		if verified == "" {
+			for _, cand := range candidateContainers(gf) {
+				row := &guardRow{Kind: "visited", Func: fnName(gf), Container: cand, Release: release}
+				all := true
+				for _, cl := range calls {
+					if ok, w := visitedGuarded(gf, cl, row); !ok {
+						all = false
+						why = w
+					}
+				}
+				if all {
+					verified = fmt.Sprintf("visited container %q tested and marked in %s before each of its %d recursive calls", cand, fnName(gf), len(calls))
+					break
+				}
+			}
+		}
+		if verified == "" {
+			continue
+		}
+		// every cycle passes through gf: the rest of the component is acyclic
+		if acyclicWithout(comp, in, g, gf) {
+			return true, verified
+		}
+		why = "the guard in " + fnName(gf) + " does not lie on every cycle"
+	}
+	return false, why
+}
+
+func acyclicWithout(comp []*ssa.Function, in map[*ssa.Function]bool, g *repoGraph, skip *ssa.Function) bool {
+	state := map[*ssa.Function]int{}
+	var visit func(f *ssa.Function) bool
+	visit = func(f *ssa.Function) bool {
+		switch state[f] {
+		case 1:
+			return false
+		case 2:
+			return true
+		}
+		state[f] = 1
+		for _, e := range g.succ[f] {
+			if !in[e.To] || e.To == skip {
+				continue
+			}
+			if !visit(e.To) {
+				return false
+			}
+		}
+		state[f] = 2
+		return true
+	}
+	for _, f := range comp {
+		if f == skip {
+			continue
+		}
+		if !visit(f) {
+			return false
+		}
+	}
+	return true
 }
